@@ -179,6 +179,17 @@ class Exec(StmtMixin):
         pcs = [z3.And(o.st.pc) if o.st.pc else z3.BoolVal(True) for o in any_end] or [z3.BoolVal(False)]
         self.obls.append(Obl(self.oname("cover", "some-path-terminates", self.fnode.lineno), "cover", "some-path-terminates",
                              self.fnode.lineno, [z3.Or(pcs)], z3.BoolVal(True)))
+        # every hook assertion must be reached by some feasible path (else it asserts nothing)
+        for (label, line), hp in sorted(getattr(self, "hook_reach", {}).items()):
+            self.obls.append(Obl(self.oname("cover", "hook-reached:" + label, line), "cover", "hook-reached:" + label, line,
+                                 [z3.Or(hp)], z3.BoolVal(True)))
+        for h in c.hooks:
+            for act in h[2]:
+                if act[0] == "assert" and not any(k[0] == act[1] for k in getattr(self, "hook_reach", {})):
+                    # never reached by the symbolic execution at all: reported as a vacuous guard (the driver
+                    # attributes it to a refuted obligation of the same function when there is one)
+                    self.obls.append(Obl(self.oname("cover", "hook-reached:" + act[1], self.fnode.lineno), "cover",
+                                         "hook-reached:" + act[1], self.fnode.lineno, [z3.BoolVal(False)], z3.BoolVal(True)))
 
     def check_normal(self, o):
         c = self.c
